@@ -52,13 +52,15 @@ def gen(rng, tier, ctx):
         if op == "clear" and rng.random() > p_clear * 10:
             op = "create"
         if op == "create":
-            steps.append(["create", rng.choice(["Person", "Employee", "Manager", "Org", "Dept", "Chief", "Volunteer", "WorkingStudent", "VOrg", "VOrg", "VPerson"])])
+            steps.append(["create", rng.choice(["Person", "Employee", "Manager", "Org", "Dept", "Chief", "Volunteer", "WorkingStudent", "VOrg", "VOrg", "VPerson",
+                                                "SeasonalA", "SeasonalB"])])
         elif op in ("drop",):
             steps.append(["drop", rng.randrange(1000)])
         elif op == "relate":
             steps.append(["relate", rng.choice(["works_for", "member_of", "members", "sub_org_of"]), rng.randrange(1000), rng.randrange(1000)])
         elif op in ("q_new", "q_build", "q_build_attr"):
-            steps.append([op, rng.choice(["Person", "Employee", "Manager", "Org", "Dept", "Chief", "Volunteer", "WorkingStudent", "VOrg", "VPerson"])])
+            steps.append([op, rng.choice(["Person", "Employee", "Manager", "Org", "Dept", "Chief", "Volunteer", "WorkingStudent", "VOrg", "VPerson",
+                                          "SeasonalA"])])
         elif op == "q_rule":
             steps.append([op, rng.choice(["Person", "Org", "Employee", "Dept"]), rng.choice(["Person", "Org", "Employee", "Dept", "Volunteer"])])
         elif op == "q_rule_eval":
